@@ -44,6 +44,12 @@ def main():
         sys.exit(chk.finish())
     try:
         mod.run(chk)
+        if getattr(mod, "BIG_IO", None):
+            # large inputs: the real binary against the library fed in small pieces (cases.big_io)
+            from cases import big_io
+            big_io(chk, 200 if tier == "quick" else 3000, want=mod.BIG_IO)
+            chk.rule += ("; plus large inputs (many records, one field of 1 KiB-128 KiB ± 1, the small input pushed across offset 65536/131072, a long "
+                         "unterminated tail): the real binary vs the library run in-process with reads of 1-4096 bytes and short writes")
     except BuildError as e:
         chk.report_tie("a build needed by the check failed", {"theorem_or_component": "build", "log": str(e)})
     sys.exit(chk.finish())
